@@ -77,6 +77,17 @@ def handle : List Sexp → Option String
         | "union" => GenK.unionTest ks o
         | _ => GenK.exclusionTest ks o
       some (match r with | .ok _ => "ok" | .error e => "err " ++ errName e)
+  | .atom "KSETOF" :: .atom k :: args => do
+      -- KSETOF k len1 .. lenk octets...
+      let a ← intArgs args
+      let n ← k.toNat?
+      let lens := (a.take n).map Int.toNat
+      let rec cut : List Nat → List Int → List (List Int)
+        | [], _ => []
+        | l :: ls, bs => bs.take l :: cut ls (bs.drop l)
+      some (match GenK.setOfSort (cut lens (a.drop n)) with
+        | .ok (sub, c, o) => s!"ok{ints sub} | {c} {o}"
+        | .error e => "err " ++ errName e)
   | .atom "KDECTAG" :: args => do
       let a ← intArgs args
       some (out (GenK.decodeTag a))
